@@ -87,7 +87,9 @@ where
         F: Fn(char) -> bool,
     {
         let mut results: Vec<ResultTextSelection<'store>> = Vec::with_capacity(fragments.len());
-        let mut begin: usize = 0;
+        //matches are in absolute positions, the text we search in does not necessarily begin at 0
+        let base = self.absolute_cursor(0);
+        let mut begin: usize = base;
         let mut textselectionresult = self.textselection(&Offset::whole());
         for fragment in fragments {
             if let Ok(searchtext) = textselectionresult {
@@ -99,7 +101,7 @@ where
                     if m.begin() > begin {
                         //we skipped some text since last match, check the characters in between matches
                         let skipped_text = self
-                            .textselection(&Offset::simple(begin, m.begin()))
+                            .textselection(&Offset::simple(begin - base, m.begin() - base)) //offset must be relative
                             .expect("textselection must succeed")
                             .text();
                         for c in skipped_text.chars() {
